@@ -212,3 +212,95 @@ Definition check_sq_abs (al : alg) (v : zvec) (L : zmat) (D : zvec) (t : tol)
 (* HRR integer binding powers (C12) *)
 Definition check_hrr_power (v : zvec) (neg : bool) (n : nat) (t : tol) (o : obs (seq dyad)) : bool :=
   cmp_res (cmp_vec t) (Ok (nowarn (hrr_power v neg n))) o.
+
+(* ---- binding powers and unitarity (C12) ---------------------------------- *)
+From NSpa Require Import Model.Power.
+
+Definition alg_power (al : alg) (v : zvec) (neg : bool) (n : nat) : result (scaled zvec) :=
+  match al with
+  | AHrr => Ok (plain (hrr_power v neg n))
+  | AVtb => vtb_power v neg n
+  | ATvtb => tvtb_power v neg n
+  end.
+
+Definition check_power (al : alg) (v : zvec) (neg : bool) (n : nat) (t : tol)
+    (o : obs (seq dyad)) : bool :=
+  cmp_res (cmp_svec t) (rmap (@nowarn _) (alg_power al v neg n)) o.
+
+(* Relations evaluated on the implementation's exact outputs.  A list of
+   dyadics is brought to a common exponent K: x_i = N_i / 2^K. *)
+Definition dy_maxk (x : seq dyad) : nat := foldr (fun q m => maxn q.2 m) 0 x.
+Definition dy_common (K : nat) (x : seq dyad) : zvec :=
+  map (fun q => (q.1 * pow2 (K - q.2))%Z) x.
+
+(* |p / q - target| <= tolerance with p, q integers (q > 0): reuse close_rat with
+   the observed value written as the dyadic p / 2^k *)
+Definition close_frac (p : Z) (k : nat) (target : Z) (t : tol) : bool :=
+  close_rat (p, k) target 1 t.
+
+Definition all_close (xs : zvec) (k : nat) (targets : zvec) (t : tol) : bool :=
+  all2 (fun p m => close_frac p k m t) xs targets.
+
+(* u is unitary in the algebra's sense (on exact values):
+   HRR      conv u (inv u) = e0
+   VTB/TVTB s * U^T U = I   (checked as the flattened matrix) *)
+Definition rel_unitary (al : alg) (u : seq dyad) (t : tol) : bool :=
+  let K := dy_maxk u in
+  let U := dy_common K u in
+  let d := size u in
+  match al with
+  | AHrr => all_close (hrr_bind_core U (hrr_invert U)) (K + K) (hrr_identity _ d) t
+  | _ =>
+      match sub_d d with
+      | Ok s =>
+          let M := reshape s U in
+          let G := matmul (mtrans M) M in
+          all_close (flatten_m (mscale (Zn s) G)) (K + K) (eye_flat _ s) t
+      | Err _ => false
+      end
+  end.
+
+(* binding with u preserves dot products: <x*u, y*u> = <x,y> (and u*x on the
+   left where the algebra supports it); x, y integer vectors *)
+Definition rel_isometry (al : alg) (u : seq dyad) (x y : zvec) (left : bool) (t : tol) : bool :=
+  let K := dy_maxk u in
+  let U := dy_common K u in
+  let b a := if left then alg_bind al U a else alg_bind al a U in
+  match b x, b y with
+  | Ok bx, Ok by_ =>
+      (* value = core * sqrt(rnum/rden) / 2^K each; product of two: rnum/rden / 4^K *)
+      close_rat ((dot (core bx) (core by_) * Zn (rnum bx))%Z, K + K)
+                (dot x y * Zn (rden bx))%Z 1%Z t
+  | _, _ => false
+  end.
+
+(* two implementation vectors are close to each other *)
+Definition rel_close (a b : seq dyad) (t : tol) : bool :=
+  let K := maxn (dy_maxk a) (dy_maxk b) in
+  all2 (fun p q => close_rat (p, K) q (pow2 K) t) (dy_common K a) (dy_common K b).
+
+(* HRR: conv p q = r on exact implementation outputs *)
+Definition rel_hrr_bind_eq (p q r : seq dyad) (t : tol) : bool :=
+  let K := maxn (dy_maxk p) (maxn (dy_maxk q) (dy_maxk r)) in
+  let P := dy_common K p in let Q := dy_common K q in let Rr := dy_common K r in
+  all2 (fun c m => close_rat (c, K + K) m (pow2 K) t) (hrr_bind_core P Q) Rr.
+
+(* generic: bind(bind(a, u), inv u) returns a, on exact u and the model's own inverse *)
+Definition rel_unbind (al : alg) (u : seq dyad) (a : zvec) (t : tol) : bool :=
+  let K := dy_maxk u in
+  let U := dy_common K u in
+  match alg_invert al U SRight with
+  | Ok w =>
+      match alg_bind al a U with
+      | Ok r1 =>
+          match alg_bind al (core r1) (wval w) with
+          | Ok r2 =>
+              all2 (fun c m =>
+                close_rat ((c * Zn (rnum r1))%Z, K + K) (m * Zn (rden r1))%Z 1%Z t)
+                (core r2) a
+          | _ => false
+          end
+      | _ => false
+      end
+  | _ => false
+  end.
